@@ -158,6 +158,11 @@ func opFromOvs(o ovsdb.Operation) OperationJ {
 }
 
 func runC15(r *Run) {
+	c15Expand(r)
+	c15Create(r)
+}
+
+func c15Expand(r *Run) {
 	r.Rule = "transactions with 1-4 inserts under symbolic names (some names equal to string data, some with explicit UUIDs, rarely two inserts claiming one name), names used in every uuid-typed position (scalar, optional, set, map key, map value, key and value) of rows, conditions and mutations of operations before and after the defining insert; non-trivial = transaction in which a declared name occurs in a uuid-typed position of another operation; distinct by operation list"
 	n := 1200
 	if r.Tier == "thorough" {
